@@ -171,7 +171,11 @@ def render(ir):
     for f, ops in enumerate(scripts):
         variant = ir["variants"][f] if f < len(ir["variants"]) else "fn"
         fid = f + 1
-        body = ["  " + text for text in render_ops(ops, fid, ir.get("heap"))] + ["  print('D', %d, tag); done <- %d;" % (fid, fid)]
+        inner = render_ops(ops, fid, ir.get("heap"))
+        if f in ir.get("callback_fibers", []):
+            # outside the verdict zone (pinned known finding): the fiber's operations run inside a native callback
+            inner = ["[0].iter().each(|x| {"] + inner + ["});"]
+        body = ["  " + text for text in inner] + ["  print('D', %d, tag); done <- %d;" % (fid, fid)]
         if variant == "fn":
             lines.append("fn fib%d(%s, done, tag) {" % (f, params))
             lines += body
@@ -531,6 +535,8 @@ def shrink(ir):
 
 def valid_zone(ir):
     """Is the network inside the verdict zone (used to reject shrink candidates that leave it)."""
+    if ir.get("callback_fibers"):
+        return False
     scripts = [ir["main"]] + ir["scripts"]
     closer = {}
     for f, script in enumerate(scripts):
